@@ -509,6 +509,13 @@ func (x *c10Run) build(dir string) (*Client, *Request) {
 	}
 	x.applyOps(tc.clientOps, c, nil)
 
+	if len(tc.reqOps) > 0 {
+		// a sibling request of the same client gets the same request-level setters first: they
+		// must act on ITS copy of the policy only (R() clones), never reach the request under test
+		decoy := &c10Run{tc: tc}
+		decoy.req = c.R()
+		decoy.applyOps(tc.reqOps, nil, decoy.req)
+	}
 	r := c.R()
 	x.req = r
 	ctx, cancel := context.WithCancel(context.Background())
@@ -1056,6 +1063,7 @@ func TestVerif_C10_loop(t *testing.T) {
 		rec := c10Exec(tc, dir)
 		recs = append(recs, rec)
 	}
+	reached := map[string]int{}
 	for _, rc := range recs {
 		toks := strings.Split(rc.impl, " ")
 		fin := toks[len(toks)-1]
@@ -1085,6 +1093,21 @@ func TestVerif_C10_loop(t *testing.T) {
 			}
 		}
 		s.Count("attempts:" + strconv.Itoa(nW))
+		if nW >= 5 {
+			reached["attempts>=5"]++
+		}
+		for _, tk := range toks {
+			reached["event:"+tk[:1]]++
+		}
+		if fin == "panic" || strings.HasSuffix(fin, ":-") {
+			reached["final:ok-or-panic"]++
+		}
+	}
+	// the lane must not pass vacuously
+	for _, need := range []string{"attempts>=5", "event:B", "event:W", "event:C", "event:H", "event:I", "event:A", "final:ok-or-panic"} {
+		if reached[need] == 0 {
+			t.Errorf("generator never reached bucket %s", need)
+		}
 	}
 	c10Finish(s, recs)
 }
@@ -1506,6 +1529,18 @@ func TestVerif_C10_backoff(t *testing.T) {
 			mx = mn + int64(r.Intn(1<<uint(1+r.Intn(42))))
 		}
 		run(mn, mx, r.Intn(70))
+	}
+	nIn, nBoundary := 0, 0
+	for _, rc := range recs {
+		if rc.nontriv {
+			nIn++
+		}
+		if rc.mn == 0 || rc.mx < 2 {
+			nBoundary++
+		}
+	}
+	if nIn == 0 || nBoundary == 0 {
+		t.Errorf("generator never reached the in-domain (%d) / excluded-boundary (%d) triples", nIn, nBoundary)
 	}
 	// classification: repaired model (guard) first, then the code as found
 	line := func(g string, rc rec) string {
